@@ -630,6 +630,7 @@ func runFrame(fr *frame) {
 		nonPhis := executePhis(fr)
 		for _, instr := range nonPhis {
 			fr.curInstr = instr
+			st.curFrame = fr
 			fr.i.steps++
 			if fr.i.steps > st.stepBudget {
 				st.endPath(OutBudget, fmt.Sprintf("step budget %d exceeded", st.stepBudget))
